@@ -798,9 +798,13 @@ def run(ctx):
         "is exported as ...480 µs (quotient > 2^31 s, double resolves 0.48 µs); counted under outside_domain_off_by_one",
     ]
     ctx.extra["tree_under_test"] = fw.REPO
-    ctx.prove(["TLX.Props.C12"])
-    ctx.require_theorems(THEOREMS)
+    import ib_ingest
+    import file_corr
+    ctx.prove(["TLX.Props.C12"] + ib_ingest.MODULES)
+    ctx.require_theorems(THEOREMS + ib_ingest.THEOREMS)
     run_correspondence(ctx)
+    ib_ingest.correspond(ctx)         # ties TLX.Dissect / TLX.Ingest (what Packet() gets from dpkt; run()'s glue) to the real code
+    file_corr.correspond(ctx)         # whole program over the container variants, capture file → output file, byte for byte
     run_residue(ctx, ctx.n(150, 3000))
     run_oracle(ctx)
     return ctx.finish(search=lambda c: run_oracle(c, scale=3))
